@@ -1,7 +1,7 @@
 ---- MODULE MC_TreeK ----
 (* alphabet K: every insertion permutation of small dicts over mixed / mutually incomparable keys *)
 EXTENDS TreeLaws
-MCKeyU == { <<KINT, 1>>, <<KINT, 2>>, <<KSTR, 1>>, <<KFLT, 1>>, <<KUNORD, 1>>, <<KUNORD, 2>>, <<KORD, 1>>, <<KNEST, 1>>, <<KTIE, 0>>, <<KTIE, 1>> }
+MCKeyU == { <<KINT, 1>>, <<KINT, 2>>, <<KSTR, 1>>, <<KFLT, 1>>, <<KUNORD, 1>>, <<KUNORD, 2>>, <<KORD, 1>>, <<KNEST, 1>>, <<KTIE, 0>>, <<KTIE, 1>>, <<KTUP, 2>> }
 MCNtCls == (11 :> [k |-> "nt", arity |-> 2])
 MCCustomCls == (1 :> [hasent |-> FALSE])
 MCReg0 == << <<"", 1>>, <<"a", 2>>, <<"a", 3>>, <<"b", 3>> >>
